@@ -41,10 +41,10 @@ fn fams_for(tier: &str, which: &str) -> Vec<&'static str> {
     let _ = tier;
     match which {
         "c02" => vec!["adv", "inframe", "padx", "nearstart", "hist", "corpus", "mut"],
-        "c17" => vec!["adv", "inframe", "padx", "nearstart", "hist", "noise", "corpus", "mut"],
+        "c17" => vec!["adv", "inframe", "padx", "nearstart", "hist", "histframe", "noise", "corpus", "mut"],
         "c15" => vec!["adv", "inframe", "padx", "nearstart", "noise", "corpus", "mut"],
-        "c14" => vec!["hist", "inframe", "padx", "adv3", "corpus", "mut"],
-        "c05" => vec!["hist", "inframe", "padx", "noise", "corpus", "mut"],
+        "c14" => vec!["hist", "histframe", "inframe", "padx", "adv3", "corpus", "mut"],
+        "c05" => vec!["hist", "histframe", "inframe", "padx", "noise", "corpus", "mut"],
         _ => vec![],
     }
 }
@@ -117,6 +117,19 @@ pub fn cmd_c17(tier: &str, out: &str) {
                 ks.put(&key, || format!("{{\"T\":{},\"e\":{},\"ops\":{},\"cap\":{}}}", s.len(), jarr2(&ev), jarr(ops), cap));
             }
         }
+        if !has_calls(ops) && s.len() <= 400 && streams % 3 == 0 {
+            // I/O errors at positions inside the stream: the count attached to the error takes part in the tiling
+            for (k, p) in [(crate::rd::OTH, s.len() / 2), (crate::rd::OTH, s.len().saturating_sub(1)), (crate::rd::WB, s.len() / 3)] {
+                let mut items: Vec<u32> = ops.to_vec();
+                items.insert(p.min(items.len()), k);
+                if k == crate::rd::WB {
+                    items.insert((2 * s.len() / 3 + 1).min(items.len()), crate::rd::OTH);
+                }
+                let ev = crate::rd::run_faulty(&items, 0);
+                let key = format!("f|{}|{:?}", s.len(), ev);
+                ks.put(&key, || format!("{{\"T\":{},\"e\":{},\"items\":{},\"fe\":9}}", s.len(), jarr2(&ev), jarr(&items)));
+            }
+        }
         if !has_calls(ops) {
             for (src, id) in [(Src::Iter, 7u16), (Src::Io, 8)] {
                 let ev = run_reader_vec(&s, src, 0);
@@ -169,6 +182,14 @@ pub fn cmd_c15(tier: &str, out: &str) {
         let g = group_obs(&obs);
         ks.put(&g, || format!("{{\"s\":{},\"nfix\":{},\"obs\":{}}}", jarr(&s), nfix, g));
     });
+    for (l, b) in [(65535usize, 0x55u8), (65536, 0x55), (65537, 0x00)] {
+        let s = frame(&vec![b; l]);
+        streams += 1;
+        let nfix = cap_at_least(l);
+        let obs = all_frontends(&s, nfix, false);
+        let g = group_obs(&obs);
+        ks.put(&g, || format!("{{\"s\":{},\"nfix\":{},\"obs\":{}}}", jarr(&s), nfix, g));
+    }
     ks.finish("c15", &format!(",\"streams\":{}", streams));
 }
 
